@@ -245,7 +245,7 @@ theorem framing_table {isHead : Bool} {sl : StatusLine} {h0 : HeaderMap} {m : Ms
               · simp at hfr
               · split at hfr
                 · next hpos =>
-                  simp only [Framing.length.injEq] at hfr
+                  simp only [RespFraming.length.injEq] at hfr
                   have hH : isHead = false := by
                     cases hi : isHead with
                     | false => rfl
